@@ -353,7 +353,7 @@ func Sentence(r *rand.Rand, p *Prog, cfg Cfg) []string {
 	var syms []sym
 	budget := 8
 	if cfg.MaxRep > 3 {
-		budget = 8 + 4*cfg.MaxRep
+		budget = 8 + 2*cfg.MaxRep
 	}
 	derive(r, p, p.AST, &syms, &budget, cfg.MaxRep)
 	i := 0
